@@ -1,3 +1,75 @@
-import RlibModel.Model.Common
-/-! Line-protocol driver for engine `bitset` (stub: to be written by the engine's author). -/
-def main : IO Unit := pure ()
+import RlibModel.Model.Bitset
+/-!
+Line-protocol driver for engine `bitset` (property C12).
+
+Case line:  `<N> <K> ; op ; op ; …`   — `K` registers of type `Bitset<N>`, all `new()` at the start.
+Ops: `new d`, `from d HEX`, `set d x`, `remove d x`, `flip d x`, `clear d`, `and d a b`, `or d a b`,
+`xor d a b`, `anda d s`, `ora d s`, `xora d s`, `not d s`, `clone d s`, `test r x`, and
+`load d HEX,HEX,…` (a fresh bitset, then `set(i)` for every set bit of the words, ascending).
+Answer: `M <model observation> | S <spec observation>` (the view is the raw observation itself, so the
+`V` field is omitted — `check` then takes view = raw); see `showObs`.
+-/
+open Rlib Rlib.Bitset
+
+def parseWords? (s : String) : Option (List Nat) :=
+  (s.splitOn ",").mapM (fun t => match parseHex? t with
+    | some w => if w < 2 ^ 64 then some w else none
+    | none => none)
+
+def parsePos? (s : String) : Option Nat :=
+  match parseNat? s with
+  | some x => if x < 2 ^ 64 then some x else none
+  | none => none
+
+/-- Parse one op. -/
+def parseOp? (k : Nat) (toks : List String) : Option (List Op) :=
+  let reg? (s : String) : Option Nat :=
+    match parseNat? s with
+    | some r => if r < k then some r else none
+    | none => none
+  match toks with
+  | ["new", d] => do let d ← reg? d; pure [.new d]
+  | ["from", d, v] => do
+      let d ← reg? d
+      let v ← parseHex? v
+      if v < 2 ^ 64 then pure [.fromU64 d v] else none
+  | ["set", d, x] => do let d ← reg? d; let x ← parsePos? x; pure [.set d x]
+  | ["remove", d, x] => do let d ← reg? d; let x ← parsePos? x; pure [.remove d x]
+  | ["flip", d, x] => do let d ← reg? d; let x ← parsePos? x; pure [.flip d x]
+  | ["clear", d] => do let d ← reg? d; pure [.clear d]
+  | ["and", d, a, b] => do let d ← reg? d; let a ← reg? a; let b ← reg? b; pure [.and d a b]
+  | ["or", d, a, b] => do let d ← reg? d; let a ← reg? a; let b ← reg? b; pure [.or d a b]
+  | ["xor", d, a, b] => do let d ← reg? d; let a ← reg? a; let b ← reg? b; pure [.xor d a b]
+  | ["anda", d, s] => do let d ← reg? d; let s ← reg? s; pure [.andA d s]
+  | ["ora", d, s] => do let d ← reg? d; let s ← reg? s; pure [.orA d s]
+  | ["xora", d, s] => do let d ← reg? d; let s ← reg? s; pure [.xorA d s]
+  | ["not", d, s] => do let d ← reg? d; let s ← reg? s; pure [.not d s]
+  | ["clone", d, s] => do let d ← reg? d; let s ← reg? s; pure [.clone d s]
+  | ["test", r, x] => do let r ← reg? r; let x ← parsePos? x; pure [.test r x]
+  | ["load", d, ws] => do
+      let d ← reg? d
+      let ws ← parseWords? ws
+      pure [.load d ws]
+  | _ => none
+
+def invalid : String := "M INVALID | S any"
+
+def handle (line : String) : String :=
+  match splitOps line with
+  | [] => badLine line
+  | hdr :: opStrs =>
+    match parseNats? (tokens hdr) with
+    | some [n, k] =>
+      if n = 0 ∨ k = 0 ∨ k > 16 ∨ n > 1024 then invalid else
+      match (opStrs.filter (· ≠ "")).mapM (fun s => parseOp? k (tokens s)) with
+      | none => invalid
+      | some opss =>
+        let ops := opss.flatten
+        let m := match runCase n k ops with
+          | .ok o => showObs n o ++ " o=ok"
+          | .error e => e.toString
+        let s := if ops.all (Op.inDomain n k) then showObs n (specRunCase n k ops) ++ " o=ok" else "any"
+        s!"M {m} | S {s}"     -- view = raw result: the property fixes every observed value
+    | _ => badLine line
+
+def main : IO Unit := driverMain handle
